@@ -106,7 +106,10 @@ def file_text(path):
 # generator of simulation trees
 
 RX_KEY = re.compile(r"([^:]+)::(\S+) it=(\d+) tl=(\d+)( m=0)?( rl=(\d+))?( c=(\d+))?")
-BENIGN = ["simA", "bhb_q1", "run-07", "test_proc", "X", "lcdm.128"]
+# ordinary names; several contain words of the file-name scheme followed by digits (it_32, file_3, rl1, c=2, tl0):
+# harmless in a NAME, they must not be picked up by any parser
+BENIGN = ["simA", "bhb_q1", "run-07", "test_proc", "X", "lcdm.128", "flrw_init_32", "orbit_7", "unit_3x", "it_5",
+          "profile_12", "rl1_tl0", "my_output-2", "chkpt_it_9"]
 ADVERSARIAL = ["my restart run", "a->b", "x rl = 3 y", "it's", 'q"uote', "a,b, c", "restart", "new restart 3",
                "3D variables available", "Checkpoints available at its", "out = [5]", "np.arange(1, 2, 3)",
                " === restart 7", "=== restart 2", "a -> 1 -> 2", "rl = 0 at it = [4]", "tab\there", "é_sim",
